@@ -45,6 +45,17 @@ REVIEWED_SETITER = {
 }
 
 
+# number of reviewed sites per (module, call) / per module -- the reasons are in the two tables above
+REVIEWED_NONDET_BUDGET = {
+    ('greedy.block_generation', 'getrusage'): 3, ('sfs_generator.gasol_optimization', 'listdir'): 2, ('sfs_generator.gasol_optimization', 'dtimer'): 3,
+    ('sfs_generator.ir_block', 'dtimer'): 2, ('sfs_generator.ir_block', 'listdir'): 1, ('gasol_asm', 'dtimer'): 2,
+}
+REVIEWED_SETITER_BUDGET = {
+    'greedy.block_generation': 2, 'smt_encoding.instructions.instruction_bounds_with_dependencies': 3,
+    'smt_encoding.instructions.instruction_dependencies': 1, 'smt_encoding.json_with_dependencies': 1,
+}
+
+
 def lookup(table, fn, src):
     for (f, prefix), why in table.items():
         if fn.endswith(f) and src.replace('"', "'").startswith(prefix.replace('"', "'")):
@@ -65,19 +76,28 @@ class PurityScan(NativeCase):
                 reach |= A.reachable(e)
         self.ob('analysis-covers-the-pipeline', len(reach) > 150, inputs=dict(reachable_functions=len(reach)))
         n_nd = n_si = 0
+        # reviewed budget per module (robust to renaming of functions and locals): how many sites of each kind were reviewed
+        per_mod_nd, per_mod_si = {}, {}
+        sites_nd, sites_si = {}, {}
         for k in sorted(reach):
             nd, si = purity.scan_function(A.funcs[k])
             for (ln, src) in nd:
                 n_nd += 1
-                why = lookup(REVIEWED_NONDET, k[1], src)
-                self.ob('run-dependent source is a reviewed site', why is not None, inputs=dict(function="%s.%s" % k, line=ln, source=src, reason=why),
-                        info="call of a run-dependent source at %s.%s:%d: %s" % (k[0], k[1], ln, src))
+                call = src.split('(')[0].split('.')[-1]
+                per_mod_nd[(k[0], call)] = per_mod_nd.get((k[0], call), 0) + 1
+                sites_nd.setdefault((k[0], call), []).append("%s:%d %s" % (k[1], ln, src))
             for (ln, src) in si:
                 n_si += 1
-                why = lookup(REVIEWED_SETITER, k[1], src)
-                self.ob('ordered consumption of a set is a reviewed site', why is not None,
-                        inputs=dict(function="%s.%s" % k, line=ln, source=src, reason=why),
-                        info="iteration order of a set may reach a result at %s.%s:%d: %s" % (k[0], k[1], ln, src))
+                per_mod_si[k[0]] = per_mod_si.get(k[0], 0) + 1
+                sites_si.setdefault(k[0], []).append("%s:%d %s" % (k[1], ln, src))
+        for key in sorted(set(per_mod_nd) | set(REVIEWED_NONDET_BUDGET)):
+            got, budget = per_mod_nd.get(key, 0), REVIEWED_NONDET_BUDGET.get(key, 0)
+            self.ob('run-dependent sources are the reviewed ones', got <= budget, inputs=dict(module=key[0], call=key[1], sites=sites_nd.get(key, []), reviewed=budget),
+                    info="%d call(s) of %s in %s, %d reviewed: %s" % (got, key[1], key[0], budget, sites_nd.get(key)))
+        for key in sorted(set(per_mod_si) | set(REVIEWED_SETITER_BUDGET)):
+            got, budget = per_mod_si.get(key, 0), REVIEWED_SETITER_BUDGET.get(key, 0)
+            self.ob('ordered consumptions of sets are the reviewed ones', got <= budget, inputs=dict(module=key, sites=sites_si.get(key, []), reviewed=budget),
+                    info="%d ordered consumption(s) of a set in %s, %d reviewed: %s" % (got, key, budget, sites_si.get(key)))
         # identifier numbering goes through sorted(...)
         bud = A.funcs.get(('sfs_generator.gasol_optimization', 'build_userdef_instructions'))
         ok = bud is not None and any(isinstance(n, ast.Call) and isinstance(n.func, ast.Name) and n.func.id == 'sorted' and 'u_dict' in ast.unparse(n)
